@@ -156,7 +156,7 @@ def c18(tier, seed, replay_path=None):
     # ---- connection manager: design (ConnMgr.tla) and recorded executions of the real one (Trace_ConnMgr.tla)
     d2 = c.sub("cfg")
     cmcfg = os.path.join(d2, "connmgr.cfg")
-    cm_consts = {"Target": 2, "BanAt": 2, "Addrs": c.tla_set(["a", "b", "c", "d"]), "MaxFails": 4 if tier == "quick" else 5, "MaxDisc": 2, "Deviations": "{}"}
+    cm_consts = {"Target": 2, "BanAt": 2, "Addrs": c.tla_set(["a", "b", "c", "d"]), "MaxFails": 4 if tier == "quick" else 5, "MaxDisc": 2, "Deviations": "{}", "GMax": 2, "MaxDrought": 1}
     c.write_cfg(cmcfg, "CmSpec", cm_consts, ["OpenAtMostTarget", "LiveAtMostTarget", "SlotsNeverLost"], ["BackToTarget"])
     runs.append(c.tlc_must_pass(c.run_tlc("ConnMgr", cmcfg, workers=c.NCPU), "ConnMgr"))
     cm_consts["Deviations"] = c.tla_set(["BanLosesSlot"])
@@ -164,6 +164,11 @@ def c18(tier, seed, replay_path=None):
     r0 = c.run_tlc("ConnMgr", cmcfg, workers=4)
     if r0.ok or not r0.violation:
         raise c.Infra("model sensitivity lost: ConnMgr.tla with the BanLosesSlot deviation no longer violates SlotsNeverLost")
+    cm_consts["Deviations"] = c.tla_set(["TimersCoalesce"])
+    c.write_cfg(cmcfg, "CmSpec", cm_consts, ["SlotsNeverLost"], [])
+    r1 = c.run_tlc("ConnMgr", cmcfg, workers=4)
+    if r1.ok or not r1.violation:
+        raise c.Infra("model sensitivity lost: ConnMgr.tla with the TimersCoalesce deviation no longer violates SlotsNeverLost")
     chainbin = fc.build()
     viol_cm, events, cmstats = [], 0, {}
     nsh, nsc = (4, 12) if tier == "quick" else (16, 60)
